@@ -202,7 +202,7 @@ def gen_cases(tier, rng):
     yield from gen_foreign()
     yield from gen_api_points()
     yield from gen_two_streams()
-    n = 150 if tier == "quick" else 3000
+    n = 150 if tier == "quick" else 20000
     for k in range(n):
         ops = rand_history(rng, rng.choice([6, 10, 16, 24]), rng.choice([[1], [1], [1, 2]]))
         yield Case(line(ops), cls="random")
